@@ -4,9 +4,9 @@
 //   - print:  ast.Program.String() of the tree goawk's parser builds (hook parser.VerifC20ParsePrint,
 //     cross-checked against the public parser.ParseProgram(..).String() whenever that succeeds)
 //     versus the model's program_string on the same tree dump, byte for byte;
-//   - num / quote / fregex: NumExpr.String(), strconv.Quote, formatRegex on edge and random values;
+//   - num / quote / fregex: NumExpr.String(), formatString, formatRegex on edge and random values;
 //   - lexas: the model's claim "the printed text lexes back to the printer's own token list"
-//     (lex_as, the conclusion of theorem C20_render_lex) versus the lexing-defect features of the tree;
+//     (lex_as, the conclusion of theorem C20_render_lex) must hold for every accepted program;
 //   - fits: every expression of every tree the parser builds satisfies the hypothesis of the
 //     theorems (C04's fits, decided by the extracted fitsb), in its context;
 //   - lex / regex: lexer.Scan until EOF and lexer.ScanRegex on the printed texts and on hostile
@@ -326,7 +326,10 @@ func features(tree *sx) map[string]bool {
 
 func classify(tree *sx) string {
 	found := features(tree)
-	for _, c := range []string{clsInf, clsBigU, clsUHex, clsReNL, clsMultiGT, clsMultiCd, clsUnary, clsNumExp} {
+	// the features of the defects that are still open come first (they explain a failure); the
+	// classes of the repaired defects (F-C20-1/3/4) follow: no known finding lists them any more,
+	// so a failure of such a program that no open defect explains is reported as a violation
+	for _, c := range []string{clsReNL, clsMultiGT, clsMultiCd, clsNumExp, clsInf, clsBigU, clsUHex, clsUnary} {
 		if found[c] {
 			return c
 		}
@@ -575,10 +578,11 @@ func main() {
 		pends = append(pends, pend{c, res.printed})
 		if t1, err := parseSX(res.dump); err == nil {
 			f := features(t1)
+			// the lexing defects (unary sign adjacency F-C20-1, \u before a hex digit and \U F-C20-3,
+			// +Inf F-C20-4) are repaired: the printed text of EVERY accepted program must lex back to
+			// the printer's tokens; the features stay input classes of the oracle
 			want := "1"
-			if f[clsUnary] || f[clsUHex] || f[clsBigU] || f[clsInf] {
-				want = "0"
-			}
+			_ = f
 			lexasReqs = append(lexasReqs, "lexas "+res.dump)
 			lexasWant = append(lexasWant, want)
 			lexasSrc = append(lexasSrc, string(c.src))
@@ -618,7 +622,7 @@ func main() {
 	}
 
 	// ---- does the model's text lex back to the model's tokens (lex_as), and does that agree with
-	// the lexing-defect features of the tree: the link between the theorems' guard and the implementation
+	// this must be so for every accepted program: the link between the theorems' guard and the implementation
 	lexasAns, err := hx.ModelEval(o.ModelRun, lexasReqs)
 	if err != nil {
 		rep.HarnessError("%v", err)
@@ -630,7 +634,7 @@ func main() {
 		rep.Count("lexas:" + a)
 		if a != lexasWant[i] {
 			rep.Mismatch(hx.Mismatch{Class: "lexas", Input: lexasSrc[i], Impl: lexasWant[i], Model: a,
-				Note: "impl = 0 iff the tree has a lexing-defect feature (unary sign adjacency, \\u before a hex digit, \\U, +Inf); model = lex_as (toks pieces) (render pieces)"})
+				Note: "impl = 1: the printed text of every accepted program must lex back to the printer's own tokens; model = lex_as (toks pieces) (render pieces)"})
 		}
 	}
 
